@@ -107,8 +107,10 @@ theorem termSum_filter (asg : Cell → F) (terms : List (F × Cell)) :
   | nil => rfl
   | cons t ts ih =>
     by_cases h : t.1 = 0
-    · simp [List.filter, h, termSum, ih]; grind
-    · simp [List.filter, h, termSum, ih]
+    · simp only [List.filter, h, termSum, ne_eq, not_true_eq_false, decide_false]
+      rw [ih]; grind
+    · simp only [List.filter, h, termSum, ne_eq, not_false_eq_true, decide_true]
+      rw [ih]
 
 theorem copiesHold_append (asg : Cell → F) (a b : List (Cell × Cell)) :
     copiesHold asg (a ++ b) ↔ copiesHold asg a ∧ copiesHold asg b := by
@@ -124,8 +126,12 @@ theorem copiesHold_iff (asg : Cell → F) (a : List (Cell × Cell)) :
 
 theorem holds_copies' (s : St F) (l : List (Cell × Cell)) (asg : Cell → F) :
     (s.copies' l).Holds R asg ↔ (∀ p ∈ l, asg p.1 = asg p.2) ∧ s.Holds R asg := by
-  simp only [St.Holds, St.copies', copiesHold_append, copiesHold_iff, List.mem_reverse]
-  constructor <;> (intro h; simp_all)
+  simp only [St.Holds, St.copies', copiesHold_iff, List.mem_append, List.mem_reverse]
+  constructor
+  · intro h
+    exact ⟨fun p hp => h.2 p (Or.inl hp), h.1, fun p hp => h.2 p (Or.inr hp)⟩
+  · intro h
+    exact ⟨h.2.1, fun p hp => hp.elim (h.1 p) (h.2.2 p)⟩
 
 theorem cacheOK_copies' (s : St F) (l : List (Cell × Cell)) (asg : Cell → F) :
     (s.copies' l).CacheOK asg ↔ s.CacheOK asg := Iff.rfl
